@@ -192,6 +192,24 @@ def designed_cases(r, cid0, tier):
                     term = ["find", "any"][cid % 2] + ":F:199:%d" % c
                     out.append((mk_line(cid, src, ch, inp, stages, 2, ("C", c), term, sched), "first_pull_" + order, inp))
                     cid += 1
+    # (D) a worker makes its first pull on a short tail (2 <= remaining < c) and parks; another worker
+    # then comes back for more: with Exact(c) the tail went to the first of them in one pull
+    for src in (["vec", "iterx", "range"] if tier == "quick" else ["vec", "iterx", "range", "slice", "deque"]):
+        have = set(lazy_chains(src))
+        for ch, stages in {"M": ["M:1:0"], "F": ["Fa"], "MF": ["M:1:0", "Fa"], "O": ["O:1:0:1:0"], "X": ["X:1:0"]}.items():
+            if ch not in have:
+                continue
+            for c in [3, 5]:
+                for tail in [2, c - 1]:
+                    n = 2 * c + tail
+                    inp = list(range(n))
+                    for term in ["cnt", "fe", "cv", "red"]:
+                        if term == "red":
+                            term = "red:min" if k3.item_type(src, ch) != "val" else "red:add"
+                        pre = [0] * 7 + [1] + [2] + [3] + [1] * (c + 2) + [3] * 4 + [2] * (c + 2)
+                        sched = pre + gen_sched(r, "late_first", 3, n)
+                        out.append((mk_line(cid, src, ch, inp, stages, 3, ("C", c), term, sched), "tail_pull", inp))
+                        cid += 1
     flat = {"X": ["X:3:100"], "XF": ["X:3:100", "Fa"], "MX": ["M:1:0", "X:3:100"], "XM": ["X:3:100", "M:1:0"]}
     for src in (["vec", "iterx", "range"] if tier == "quick" else ["vec", "iterx", "iteru", "range", "slice", "deque"]):
         have = set(lazy_chains(src))
